@@ -1,11 +1,23 @@
 import DdsModel.Eval
+import DdsProofs.Cone
 /-!
 # C02 — nothing is recomputed unless something it depends on changed
 
 Stage 1 (DESIGN §5 C02): the analysis reads the store **only** through the path table entries of the
 paths the evaluation loads without producing them, so every step that leaves those entries and the
 analysed code alone fixes the same signatures; and a kept call whose key has a blob runs no body.
-(`cone_eq_iff_sig_eq` and the history theorem are stage 2.)
+
+Stage 2 (over the whole model, loads included unless said otherwise):
+* `outside_cone_invisible` — if two versions of the code agree on every function the evaluated function can reach
+  (the cone of DESIGN §4.1, closed under call / reference / keep) and on the non-accepted code, an evaluation has the
+  *same outcome* in both: same value, same executed bodies (so nothing is recomputed because of an edit outside the
+  cone), same signatures, same store. (The model's recursion bound is the number of definitions: the statement is
+  for versions with equally many definitions; additions are decided by the check's `unrelated_fun` edits.)
+* `reeval_runs_nothing` — after a successful evaluation of a kept function on a real store, every evaluation whose
+  analysis gives the root the same signature (identical re-evaluation, another process, a revert back to this version,
+  the same code elsewhere) executes no body at all and returns the stored value.
+PARTIAL: for an `eval` entry (no root path) the statement that no *kept* body re-runs needs the closure of the blob
+set under kept sub-calls; it is decided by the check on every history step (executed set == model's).
 -/
 namespace Dds.C02
 open Dds
@@ -30,5 +42,28 @@ theorem hit_runs_nothing (requested : List (String × Sg)) (rec : RunRec) (st : 
 /-- storing blobs never changes the path table (so a failed or restricted run cannot shift signatures) -/
 theorem storeBlob_paths (S : PStore) (k : Sg) (v : RVal) : (S.storeBlob k v).paths = S.paths := by
   unfold PStore.storeBlob; split <;> rfl
+
+/-- **edits outside the cone are invisible**: same outcome (value, executed bodies, signatures, store) -/
+theorem outside_cone_invisible {m : Nat} {W1 W2 : World} {cone : List String} (hag : AgreeOn W1 W2 cone)
+    (hcl : ConeClosed W1 cone) (hfuel : W1.fuel = W2.fuel) (hx : W1.extVersion = W2.extVersion)
+    (S : PStore) (rq : Request) (hrq : rq.fn ∈ cone) :
+    evalStep m W1 S rq = evalStep m W2 S rq :=
+  evalStep_congr hag hcl hfuel hx S rq hrq
+
+/-- **re-evaluation executes nothing**: once a kept function has been evaluated, any evaluation (of any version, any
+request) whose root gets the same signature runs no body and returns the stored value -/
+theorem reeval_runs_nothing {m : Nat} {W : World} {S : PStore} {rq : Request} {fn : Fn} {env : Env} {fis : FIS}
+    {paths : List (String × Sg)} (ha : analysisPhase m W S rq = .ok (fn, env, fis, paths)) (hs : Stage.eval ∈ rq.stages)
+    (hn : S.noop = false) {p : String} (hp : fis.storePath = some p) {v : RVal}
+    (hv : (evalStep m W S rq).value = .ok (some v))
+    {W' : World} {rq' : Request} {fn' : Fn} {env' : Env} {fis' : FIS} {paths' : List (String × Sg)}
+    (ha' : analysisPhase m W' (evalStep m W S rq).store rq' = .ok (fn', env', fis', paths'))
+    (hs' : Stage.eval ∈ rq'.stages) (hsig : fis'.retSig = fis.retSig) :
+    (evalStep m W' (evalStep m W S rq).store rq').log = [] ∧
+    (evalStep m W' (evalStep m W S rq).store rq').value = .ok (some v) := by
+  have hb := root_blob_stored ha hs hn hp hv
+  rw [← hsig] at hb
+  generalize (evalStep m W S rq).store = S' at ha' hb ⊢
+  simp [evalStep, ha', hs', hb]
 
 end Dds.C02
